@@ -3,6 +3,7 @@
 -/
 import HLV.Logic.Order
 import HLV.Logic.SoloAcq
+import HLV.Logic.RetryOwned
 import HLV.Props.C13
 import HLV.Props.HoldFamily
 import HLV.Model.Seq
@@ -43,6 +44,43 @@ theorem C09_retry_blocks_only_empty_handed (n : Nat) (W : World) (s : Shape)
   · have := hpre.2 y my h
     simp only [rank, if_true] at this
     omega
+
+-- @theorem C09_retry_blocks_holding_only_earlier_leaves_of_the_same_unit : the general form, owned groups allowed (any members, any nesting): whenever the acquisition of a retrying collection with distinct leaves blocks on a lock x, everything the thread holds is a leaf of the very member (unit) x belongs to and comes before x in that unit's own order — for a member that is a leaf, nothing; for an owned group, only its earlier leaves: finding D17 is the only way the first sentence of C09 can fail, and nothing taken from ANOTHER member is ever held while waiting
+theorem C09_retry_blocks_holding_only_earlier_leaves_of_the_same_unit (n : Nat) (W : World) (s : Shape) (m : Mode)
+    (hnd : (declLeaves (.retry s)).Nodup)
+    {tr₁ tr₂ : List (Op × Resp)} {m' : Mode} {x : LockId} {r : Resp} {out : Outcome Unit Unit}
+    (hp : Path ((toRaw W (.retry s)).acq m) (tr₁ ++ (.acq m' true x, r) :: tr₂) out)
+    (ha : Admissible (HoldSpec n none) {} tr₁)
+    (p : Ptr) (hpm : p ∈ getPtrs W s) (hx : x ∈ p.leaves) :
+    ∀ y my, 0 < (ghostAfter (HoldSpec n none) {} tr₁).held y my →
+      y ∈ p.leaves ∧ p.leaves.idxOf y < p.leaves.idxOf x := by
+  have hn : ((getPtrs W s).flatMap (·.leaves)).Nodup := by
+    have := shapeFp_ids_nodup W (.retry s) .excl rfl hnd
+    simp only [shapeFp, ptrsM_fp, Fp.ids] at this
+    rw [flatMap_ids .excl (getPtrs W s) (fun q _ => rfl)] at this
+    exact this
+  let rank : LockId → Nat := rankAt (getPtrs W s) p.leaves.length x
+  have hok : ShapeOK (some rank) W (.retry s) :=
+    ptrsOK_of_fitInside s (fitInside_of_unitsIncr W rank s (unitsIncr_rankAt W s _ x hn))
+  have hL := toRaw_isLock (n := n) (ro := some rank) W (.retry s) rfl hok
+  have hwp : wp (HoldSpec n (some rank)) ((toRaw W (.retry s)).acq m)
+      (fun _ _ => True) (fun _ _ => True) {} :=
+    hL.acq m {} _ _ rfl (LowFp_empty _ _) trivial (fun _ _ _ _ => trivial)
+  have htr := (wp_sound (HoldSpec n (some rank)) hwp hp).1
+  have hpre := htr.at (HoldSpec n (some rank)) (admissible_ro n none (some rank) {} tr₁ ha)
+  rw [ghostAfter_ro n (some rank) none] at hpre
+  intro y my h
+  have hlt := hpre.2 y my h
+  exact rankAt_lt (getPtrs W s) _ x y p hpm hx hn (Nat.le_refl _) hlt
+
+/-- non-vacuity: the shape of finding D17 meets the hypotheses, with `x` the second leaf of the owned group -/
+example :
+    let W : World := { addr := fun x => 2 * x }
+    let s : Shape := .seq [.owned 1 (.seq [.mutex 0, .mutex 1]), .mutex 2]
+    (declLeaves (.retry s)).Nodup ∧ ∃ p ∈ getPtrs W s, 1 ∈ p.leaves ∧ p.leaves = [0, 1] := by
+  intro W s
+  refine ⟨by decide, ?_⟩
+  simp [s, getPtrs, getPtrsL, Ptr.leaves]
 
 -- @theorem C09_retry_contract : the retrying acquisition of any members that are locks (leaves, nested collections, owned groups) returns with exactly all of them held, or unwinds holding what it held before; its try variant is all-or-nothing; for any fuel (number of rounds)
 theorem C09_retry_contract (n : Nat) (fuel : Nat) (ms : Members) (hm : ms.Ok n none) :
